@@ -74,6 +74,9 @@ func VH_C02_ManyFiles() {
 	if vf.Param("C09", 0) == 1 {
 		tg = "C09.many" // the same scenario decides C09's "handles rebuilt by recovery" clause
 	}
+	if vf.Param("C03", 0) == 1 {
+		tg = "C03.many" // ... and C03's "the recovered store accepts and retains further commits"
+	}
 	cfg := Config{SkipListMaxLevel: 1, SkipListP: 0.5, MemtableByteThreshold: 1, ImmutableBuffer: 1, DataBlockByteThreshold: 1,
 		L0TargetNum: vf.Param("L0T", 12), LevelRatio: 10}
 	dir := vf.Dir()
